@@ -401,10 +401,28 @@ fn apply_content_edits_with_content(
         path.display()
     ))?;
 
+    // Splicing by position only works on edits in ascending, non-overlapping order.
+    // A hand-edited or corrupted plan may list them in any order, twice, or overlapping.
+    let mut ordered: Vec<&(String, String, usize, usize)> = replacements.iter().collect();
+    ordered.sort_by_key(|r| r.2);
+    let mut pos = 0usize;
+    for (before, _, start, end) in &ordered {
+        if *start < pos || *end < *start {
+            return Err(anyhow!(
+                "Content mismatch in {}: the edit of '{}' at {}..{} overlaps another edit of the plan",
+                path.display(),
+                before,
+                start,
+                end
+            ));
+        }
+        pos = *end;
+    }
+
     // Apply replacements (in reverse order to maintain positions)
     let mut modified = original_content.to_string();
 
-    for (before, after, start, end) in replacements.iter().rev() {
+    for (before, after, start, end) in ordered.iter().rev() {
         // Validate the replacement matches expected content
         // A stale plan may point past the end of the file or into the middle of a character
         let Some(actual) = original_content.get(*start..*end) else {
